@@ -432,6 +432,60 @@ def joint_cases(ck, cases):
     return out
 
 
+def mixed_batch_joints(ck: Check, found):
+    """systematic in every tier: JointDistributionModel of ONE batched component (value [S, d] or [S, K, d]) and ONE
+    unbatched component whose element-wise value has N entries, N = 1..5 so that N equals S (or K) — where an
+    unbatched vector can be mistaken for per-sample values. Both orders. Oracle (the joint's spec):
+    joint[s] = lp_batched[s].sum() + lp_unbatched.sum(), or an error."""
+    by = {c.name: c for c in CS.mixed_batch_components()}
+    batched = [("Distribution[Normal,d=1]", ("x",)), ("Distribution[Normal,d=3]", ("x",)),
+               ("Distribution[Gamma[d],d=2]", ("x",)), ("Distribution[Normal,d=2]", ("loc",)),
+               ("TransformedParameter[exp,d=2].call", ("x",))]
+    if ck.thorough():
+        batched += [(f"Distribution[Normal,d={d}]", ("x",)) for d in (2, 4, 5)]
+    one = [(s,) for s in range(2, 6)]
+    for N in range(1, 6):
+        unb = [f"Distribution[Normal,d={N}]", f"Distribution[Normal[d],d={N}]",
+               f"TransformedParameter[exp{'' if N == 3 else ',d=' + str(N)}].call"]
+        two = [(N, k) for k in (2, 3)] + [(k, N) for k in (2, 3)] + [(N, N)]
+        two = [ss for ss in dict.fromkeys(two) if min(ss) >= 1]
+        if not ck.thorough():
+            two = two[:: 2] if N % 2 else two[1:: 2]
+        for uname in unb:
+            for bname, bpars in batched:
+                for order in (0, 1):
+                    comps = [by[bname], by[uname]] if order == 0 else [by[uname], by[bname]]
+                    case = CS.joint_case(comps)
+                    pos = 0 if order == 0 else 1
+                    B = frozenset(f"{pos}.{k}" for k in bpars)
+                    orc = Oracle(case, ck.rng.getrandbits(40))
+                    for ss in one + two:
+                        verdict, detail = orc.run(B, ss)
+                        ck.case(key=("mixed-batch", case.name, tuple(sorted(B)), ss),
+                                nontrivial=verdict != "slice-raises",
+                                sample={"case": case.name, "batched": sorted(B), "sample_shape": list(ss),
+                                        "unbatched_entries": N, "verdict": verdict} if N in ss and order == 1 and len(ss) == 1 else None,
+                                bucket=f"mixed-batch/{verdict}/{'N=S' if N in ss else 'N!=S'}/{len(ss)}d")
+                        if verdict in ("value", "shape"):
+                            culprit, Bc = blame_component(case, orc, B, ss)
+                            if culprit is not None:
+                                cb = base_name(culprit[0])
+                                key = (f"sample_shape:{cb}", abstract_B(cb, Bc) if cb == "Distribution" else frozenset(),
+                                       "wrong-sample-shape")
+                                repd = replay_dict(case.name, orc, B, ss, "sample_shape",
+                                                   {"component": culprit[0], "reported_sample_shape": list(culprit[1]),
+                                                    "actual_sample_shape": list(ss), "joint_verdict": verdict,
+                                                    "joint_detail": detail})
+                            else:
+                                key = ("Joint:batched+unbatched", frozenset([f"unbatched-entries={'S' if N == ss[0] else 'K' if N in ss else 'other'}"]),
+                                       "mixes" if verdict == "value" else "no-sample-rows")
+                                repd = replay_dict(case.name, orc, B, ss, verdict, detail, {"unbatched_entries": N})
+                            size = (len(ss), math.prod(ss), N)
+                            prev = found.get(key)
+                            if prev is None or size < prev[0]:
+                                found[key] = (size, case.name, repd, ss)
+
+
 def run(ck: Check):
     ck.rule = (
         "one case = one (callable class or transform, subset of its parameters carrying the sample shape, sample "
@@ -494,6 +548,7 @@ def run(ck: Check):
                 explore_specials(ck, case, found, budget=min(phase_end, now + max(share, 0.5)))
     ck.extra["time_budget_exhausted"] = time.time() > t_end
     explore_objectives(ck, found)
+    mixed_batch_joints(ck, found)
     ck.extra["classes_covered"] = sorted({c.name for c in cases})
 
     report(ck, found)
@@ -504,33 +559,42 @@ def run(ck: Check):
                      {"broken_obligations": broken, "mismatches": ck.mismatches[:5]}, found_input=False)
 
 
+def key_signature(key, rep):
+    base, B, kind = key
+    if rep["verdict"] == "sample_shape":
+        return base if not B else sig_of(base, B, kind).rsplit("|", 1)[0]
+    if rep["verdict"] == "objective":
+        return f"{base}|{'+'.join(sorted(B))}|{kind}" if B else f"{base}|{kind}"
+    return sig_of(base, B, kind)
+
+
 def report(ck, found):
     """one violation per (class, minimal failing subset of batched parameters): a failing subset that contains
-    a smaller failing subset of the same class is the same defect seen again"""
+    a smaller failing subset of the same class is the same defect seen again. A finding listed as KNOWN never
+    hides another one: only findings that will themselves be reported may stand for a duplicate."""
     keys = sorted(found, key=lambda k: (k[0], len(k[1]), sorted(k[1]), k[2]))
-    # classes that fail on their own (or report a wrong sample shape): a joint containing one of them is not
-    # reported separately
-    bad = {b for b, _B, _k in keys if not b.startswith(("Joint:", "sample_shape:"))}
-    bad |= {b[len("sample_shape:"):] for b, _B, _k in keys if b.startswith("sample_shape:")}
+    known_sigs = {k for k, _t in ck.known}
+    live = [k for k in keys if key_signature(k, found[k][2]) not in known_sigs]
+    # classes that fail on their own: a joint containing one of them is not reported separately (a component that
+    # only reports a wrong sample shape does not count: joint failures it causes are already filed under it)
+    bad = {b for b, _B, _k in live if not b.startswith(("Joint:", "sample_shape:"))}
     for base, B, kind in keys:
         if base.startswith("Joint:") and any(c in bad or c.split(".")[0] in bad for c in base[6:].split("+")):
             continue
-        if any(b2 == base and B2 < B for b2, B2, _k in keys):
+        if any(b2 == base and B2 < B for b2, B2, _k in live):
             continue
-        if any(b2 == base and B2 == B and k2 < kind for b2, B2, k2 in keys):
+        if any(b2 == base and B2 == B and k2 < kind for b2, B2, k2 in live):
             continue
         if base.startswith("Joint:") and any(
-                b2 == base[6:] and {k.split(".", 1)[1] for k in B} == set(B2) for b2, B2, _k in keys):
+                b2 == base[6:] and {k.split(".", 1)[-1] for k in B} == set(B2) for b2, B2, _k in live):
             continue  # the component alone already fails on the same subset
         _size, name, rep, ss = found[(base, B, kind)]
         if rep["verdict"] == "sample_shape":
             d = rep["detail"]
             what = (f"{d['component']} reports sample shape {d['reported_sample_shape']} while its value has one row "
                     f"per sample; JointDistributionModel then reduces across samples")
-            sig = base if not B else sig_of(base, B, kind).rsplit("|", 1)[0]
         elif rep["verdict"] == "objective":
             what = rep["detail"]["what"]
-            sig = f"{base}|{'+'.join(sorted(B))}|{kind}" if B else f"{base}|{kind}"
         else:
             what = ("row differs from its slice" if rep["verdict"] == "value"
                     else "a number is returned that has no per-sample rows and differs from the slices")
@@ -538,13 +602,13 @@ def report(ck, found):
                 sp = rep["special"]
                 what = (f"with {sp['parameter']} = {sp['value']} in sample {sp['pool_index']} only, an ordinary "
                         f"sample's {what}")
-            sig = sig_of(base, B, kind)
+        sig = key_signature((base, B, kind), rep)
         ck.violation(sig, f"{name}: batched {rep['batched'] or 'nothing'} with sample shape {list(ss)}: {what}", rep)
 
 
 # ----------------------------------------------------------------------------- replay
 def find_case(name, components=None):
-    cases = CS.all_cases(True)
+    cases = CS.all_cases(True) + CS.mixed_batch_components()
     if components:
         by = {c.name: c for c in cases}
         if all(n in by for n in components):
